@@ -428,10 +428,11 @@ def corr_core(prop, parts):
     if "func" in parts:
         cs.append(_corr_generic("funccases", prop, FUNC_MODEL_TEXT, 25, 250, shards_quick=4, shards_thorough=16))
     if "tree" in parts:
-        cs.append(_corr_generic("treecases", prop, "Trees.jrun - the composite model: sharded, batched selectors, joins with their reused tables, "
-                                "per-sample operators, count tables - evaluated inside Coq on whole nested queries (depth up to 4: "
-                                "+ - and the comparisons with on/ignoring/group_left/group_right/bool, unary minus, abs, arithmetic and "
-                                "comparisons with a literal, count by/without) vs the engine's result; values are multiples of 1/4 "
+        cs.append(_corr_generic("treecases", prop, "Trees.jrun - the composite model: sharded, batched vector and matrix selectors (incremental window scan), "
+                                "joins with their reused tables, per-sample operators, count and accumulator tables - evaluated inside Coq on whole "
+                                "nested queries (depth up to 4: + - and the comparisons with on/ignoring/group_left/group_right/bool, unary minus, abs, "
+                                "arithmetic and comparisons with a literal, count/sum/max/min/group by/without, count/last/max/min/sum_over_time, "
+                                "changes, resets, present_over_time of x[d] offset o) vs the engine's result; values are multiples of 1/4 "
                                 "carried as integers", 30, 300, shards_quick=8, shards_thorough=16))
     if "agg" in parts:
         cs.append(_corr_generic("aggcases", prop, "Agg.group_labels / assign_groups / aggregate (count table) + Select.select_step vs the engine "
